@@ -52,7 +52,7 @@ def rule_sweep_blocks(k):
     per = (len(pats) + SWEEP_TASKS - 1) // SWEEP_TASKS
     out = []
     for pi in range(k * per, min(len(pats), (k + 1) * per)):
-        for variant in range(5):
+        for variant in range(6):
             r = random.Random(pi * 7 + variant)
             g = B.Gen(r, {"pseudo": False, "bait": 0})
             g.h = 4
@@ -66,7 +66,11 @@ def rule_sweep_blocks(k):
                 if t[0] == "op":
                     return ("op", t[1], [inst(c) for c in t[2]])
                 return t
-            g.compile(("keepinner", inst(pats[pi])) if variant == 4 else inst(pats[pi]))
+            g.compile(("keepinner", inst(pats[pi])) if variant in (4, 5) else inst(pats[pi]))
+            if variant == 5 and g.h >= 6:
+                # ... and another instruction reads the inner term (it is not left on the stack, but it is still needed)
+                g.items += [(r.choice(["LT", "ADD", "SUB", "GT"]), None)]
+                g.h -= 1
             if variant == 1:
                 g.items += [("SWAP1", None), ("POP", None)]
             if variant == 3:
